@@ -162,6 +162,23 @@ pub fn run(ctx: &Ctx) -> Report {
             extra.push(b);
         }
     }
+    // size thresholds: 2^16, 2^20 (+-1) always; 2^24+1 and 2^26+3 in the thorough tier
+    let mut sizes: Vec<usize> = vec![65535, 65536, 65537, (1 << 20) - 1, 1 << 20, (1 << 20) + 1, 3 * (1 << 20) + 5];
+    if ctx.tier == crate::engine::Tier::Thorough {
+        sizes.extend([(1 << 24) + 1, (1 << 26) + 3]);
+    }
+    for (k, n) in sizes.into_iter().enumerate() {
+        extra.push((0..n).map(|j| ((j as u64).wrapping_mul(2654435761).wrapping_add(k as u64) >> 7) as u8).collect());
+    }
+    // leading byte order marks / trailing whitespace / NUL bytes must all count
+    for pre in [&b"\xef\xbb\xbf"[..], b"\xff\xfe", b"\0", b" ", b"\n"] {
+        for post in [&b""[..], b"\n", b"\r\n", b" ", b"\0", b"\x1a"] {
+            let mut v = pre.to_vec();
+            v.extend_from_slice(b"com.example.Foo -> a:\n    1:1:void m():2 -> b");
+            v.extend_from_slice(post);
+            extra.push(v);
+        }
+    }
     if ctx.tier == crate::engine::Tier::Thorough {
         for i in 0..40u64 {
             let n = (1 << 20) - 70 + (i as usize * 7) % 140;
